@@ -36,8 +36,8 @@ def all_ids():
     return [c["property_id"] for c in m["checks"]]
 
 
-def run_checks(ids):
-    for f in glob.glob(os.path.join(COVOBJ, "*.gcda")):
+def run_checks(ids, keep=False):
+    for f in ([] if keep else glob.glob(os.path.join(COVOBJ, "*.gcda"))):
         os.unlink(f)
     env = dict(os.environ, VERIF_COV="1")
     procs = []
@@ -158,11 +158,13 @@ def report(lines, branches, funcs, ngcda, results):
 
 
 def main():
-    ids = sys.argv[1:] or all_ids()
-    if ids == ["--collect-only"]:
+    args = sys.argv[1:]
+    keep = "--keep" in args          # add to the counters of earlier runs instead of starting from zero
+    ids = [a for a in args if not a.startswith("--")] or all_ids()
+    if "--collect-only" in args:
         results = {}
     else:
-        results = run_checks(ids)
+        results = run_checks(ids, keep)
     lines, branches, funcs, n = collect()
     report(lines, branches, funcs, n, results)
     return 0
